@@ -60,6 +60,18 @@ class C19(Prop):
                 for k in range(6):
                     exp["o%d.class" % (k + 3)] = "ok"; exp["o%d.value" % (k + 3)] = gen.enc_value(want)
                 out.append(Case("run", f, "mixed-key-map", group="D%d" % gid, expect=exp, note=src))
+        # one Go map reachable under several keys of the object (no cycle): every occurrence converts alike, in whatever order the keys come
+        for kind, src, want in [("7", "return [x, y, z];", [{"city": "bob", "zip": 7}, {"city": "bob", "zip": 7}, {"inner": {"city": "bob", "zip": 7}}]),
+                                ("7", "return string(x) + \"|\" + string(y) + \"|\" + string(z);", "{city: bob, zip: 7}|{city: bob, zip: 7}|{inner: {city: bob, zip: 7}}"),
+                                ("6", "return [Billing, Shipping, NilA];", [{"city": "bob", "zip": 7}, {"city": "bob", "zip": 7}, {}]),
+                                ("6", "return [len(Shipping), len(Billing), Shipping.city, Billing.zip];", [2, 2, "bob", 7])]:
+            gid += 1
+            for rep in range(6):
+                f = gen.struct_case(rng, src, ["prepare:opt"] + ["exec:0"] * 6, objs=["K%s(%s,7)" % (kind, vlib.hx("bob"))])
+                exp = {}
+                for k in range(6):
+                    exp["o%d.class" % (k + 3)] = "ok"; exp["o%d.value" % (k + 3)] = gen.enc_value(want)
+                out.append(Case("run", f, "shared-submap", group="D%d" % gid, expect=exp, note=src))
         # printed forms never show memory addresses (known finding D46: the %p verb of sprintf/printf does)
         for src in ['return sprintf("%p", [1, 2]);', 'return sprintf("%p", {"a": 1});', 'x = [1]; return sprintf("%v %p", x, x);', 'return sprintf("%p", "s");']:
             gid += 1
